@@ -50,6 +50,7 @@ theorem apply_prioLoop_nf {N : Nat} {s : State} (hc : Clean s) (e : Ev) (he : e.
   | throw i x => simp [Ev.orderly] at ho
   | interrupt i x => simp [Ev.orderly] at ho
   | reinsert i ps => simp [Ev.orderly] at ho
+  | acquireFails k => simp [Ev.orderly] at ho
   | setEv ev => rfl
 
 theorem eff_same_graph {s s' : State} (hl : s'.locks = s.locks) (hf : s'.fuel = s.fuel)
@@ -192,6 +193,7 @@ theorem rki_apply {N : Nat} {s : State} (hI : Inv s) (hc : Clean s) (hord : Ord 
   | throw i x => simp [Ev.orderly] at ho
   | interrupt i x => simp [Ev.orderly] at ho
   | reinsert i ps => simp [Ev.orderly] at ho
+  | acquireFails k => simp [Ev.orderly] at ho
   | setEv ev =>
     have heff : ∀ t, (s.doSetEv ev).eff t = s.eff t := by
       intro t
